@@ -152,6 +152,12 @@ let rec map f = function
 | [] -> []
 | a :: t -> (f a) :: (map f t)
 
+(** val flat_map : ('a1 -> 'a2 list) -> 'a1 list -> 'a2 list **)
+
+let rec flat_map f = function
+| [] -> []
+| x :: t -> app (f x) (flat_map f t)
+
 (** val fold_left : ('a1 -> 'a2 -> 'a1) -> 'a2 list -> 'a1 -> 'a1 **)
 
 let rec fold_left f l a0 =
@@ -2028,6 +2034,144 @@ let rec no_wait_while_holding held = function
 let olc_trace_ok inits tr =
   (&&) (node_accepts inits tr) (no_wait_while_holding [] tr)
 
+type blk0 = nat
+
+type pev =
+| PRLock of blk0 * bool * z
+| PCheck of blk0 * bool * z
+| PUpgrade of blk0 * bool * z
+| PUnlock of blk0
+| PObsolete of blk0
+| PLoad of blk0
+| PStore of blk0
+| PAlloc of blk0
+
+(** val root_blk : blk0 **)
+
+let root_blk =
+  O
+
+(** val beq : nat -> nat -> bool **)
+
+let beq =
+  Nat.eqb
+
+(** val last_attempt_aux : pev list -> pev list -> pev list **)
+
+let rec last_attempt_aux l acc =
+  match l with
+  | [] -> acc
+  | e :: l' ->
+    (match e with
+     | PRLock (n, _, _) ->
+       if beq n root_blk
+       then last_attempt_aux l' (e :: l')
+       else last_attempt_aux l' acc
+     | _ -> last_attempt_aux l' acc)
+
+(** val last_attempt : pev list -> pev list **)
+
+let last_attempt l =
+  last_attempt_aux l l
+
+(** val validates : blk0 -> pev -> bool **)
+
+let validates n = function
+| PCheck (m, ok, _) -> if ok then beq m n else false
+| PUpgrade (m, ok, _) -> if ok then beq m n else false
+| _ -> false
+
+(** val validated_later : blk0 -> pev list -> bool **)
+
+let validated_later n l =
+  existsb (validates n) l
+
+type sets = blk0 list * blk0 list
+
+(** val upd0 : sets -> pev -> sets **)
+
+let upd0 ho = function
+| PUpgrade (n, ok, _) -> if ok then ((n :: (fst ho)), (snd ho)) else ho
+| PUnlock n -> ((filter (fun m -> negb (beq m n)) (fst ho)), (snd ho))
+| PObsolete n ->
+  ((filter (fun m -> negb (beq m n)) (fst ho)), (n :: (snd ho)))
+| PAlloc n -> ((fst ho), (n :: (snd ho)))
+| _ -> ho
+
+(** val loads_covered : sets -> pev list -> bool **)
+
+let rec loads_covered ho = function
+| [] -> true
+| e :: l' ->
+  (&&)
+    (match e with
+     | PLoad n ->
+       (||) ((||) (existsb (beq n) (fst ho)) (existsb (beq n) (snd ho)))
+         (validated_later n l')
+     | _ -> true) (loads_covered (upd0 ho e) l')
+
+(** val coupled : pev list -> bool **)
+
+let rec coupled = function
+| [] -> true
+| p :: l' ->
+  (match p with
+   | PRLock (n, ok, _) ->
+     if ok
+     then (&&)
+            (let rec after = function
+             | [] -> true
+             | p0 :: r' ->
+               (match p0 with
+                | PRLock (_, ok0, _) ->
+                  if ok0 then validated_later n r' else after r'
+                | _ -> after r')
+             in after l') (coupled l')
+     else coupled l'
+   | _ -> coupled l')
+
+(** val held_at_end : pev list -> blk0 list **)
+
+let held_at_end l =
+  fst (fold_left upd0 l ([], []))
+
+(** val allocs : pev list -> blk0 list **)
+
+let allocs l =
+  flat_map (fun e -> match e with
+                     | PAlloc n -> n :: []
+                     | _ -> []) l
+
+(** val versions_own : (blk0 * z) list -> pev list -> bool **)
+
+let rec versions_own seen = function
+| [] -> true
+| p :: l' ->
+  (match p with
+   | PRLock (n, _, w) -> versions_own ((n, w) :: seen) l'
+   | PCheck (n, _, v) ->
+     (&&) (existsb (fun s -> (&&) (beq (fst s) n) (Z.eqb (snd s) v)) seen)
+       (versions_own seen l')
+   | PUpgrade (n, _, v) ->
+     (&&) (existsb (fun s -> (&&) (beq (fst s) n) (Z.eqb (snd s) v)) seen)
+       (versions_own seen l')
+   | _ -> versions_own seen l')
+
+(** val op_ok : pev list -> bool **)
+
+let op_ok l =
+  let a = last_attempt l in
+  (&&)
+    ((&&) ((&&) (loads_covered ([], (allocs l)) a) (coupled a))
+      (match held_at_end l with
+       | [] -> true
+       | _ :: _ -> false)) (versions_own [] l)
+
+(** val scan_ok : pev list -> bool **)
+
+let scan_ok l =
+  versions_own [] l
+
 type tid0 = nat
 
 type ptr = z
@@ -2324,10 +2468,13 @@ type lop =
 | LGet of z list
 | LInsert of z list * z list
 | LRemove of z list
+| LNext of z list * bool * z list option
+| LPrev of z list * bool * z list option
 
 type lres =
 | LVal of z list option
 | LBool of bool
+| LEntry of (z list * z list) option
 
 type call = { c_op : lop; c_res : lres; c_inv : nat; c_ret : nat }
 
@@ -2347,6 +2494,50 @@ let rec s_del k = function
   let (k', v) = p in
   if lex_eqb k k' then s_del k m' else (k', v) :: (s_del k m')
 
+(** val in_next : z list -> bool -> z list option -> z list -> bool **)
+
+let in_next lo strict hi k =
+  (&&) (if strict then lex_ltb lo k else lex_leb lo k)
+    (match hi with
+     | Some h -> lex_ltb k h
+     | None -> true)
+
+(** val in_prev : z list -> bool -> z list option -> z list -> bool **)
+
+let in_prev hi strict lo k =
+  (&&) (if strict then lex_ltb k hi else lex_leb k hi)
+    (match lo with
+     | Some l -> lex_ltb l k
+     | None -> true)
+
+(** val s_min : (z list -> bool) -> smap -> (z list * z list) option **)
+
+let rec s_min p = function
+| [] -> None
+| p0 :: m' ->
+  let (k, v) = p0 in
+  let r = s_min p m' in
+  if p k
+  then (match r with
+        | Some p1 ->
+          let (k', _) = p1 in if lex_ltb k' k then r else Some (k, v)
+        | None -> Some (k, v))
+  else r
+
+(** val s_max : (z list -> bool) -> smap -> (z list * z list) option **)
+
+let rec s_max p = function
+| [] -> None
+| p0 :: m' ->
+  let (k, v) = p0 in
+  let r = s_max p m' in
+  if p k
+  then (match r with
+        | Some p1 ->
+          let (k', _) = p1 in if lex_ltb k k' then r else Some (k, v)
+        | None -> Some (k, v))
+  else r
+
 (** val s_apply : smap -> lop -> smap * lres **)
 
 let s_apply m = function
@@ -2359,6 +2550,8 @@ let s_apply m = function
   (match s_get k m with
    | Some _ -> ((s_del k m), (LBool true))
    | None -> (m, (LBool false)))
+| LNext (lo, strict, hi) -> (m, (LEntry (s_min (in_next lo strict hi) m)))
+| LPrev (hi, strict, lo) -> (m, (LEntry (s_max (in_prev hi strict lo) m)))
 
 (** val lres_eqb : lres -> lres -> bool **)
 
@@ -2371,16 +2564,33 @@ let lres_eqb a b =
         | LVal o0 -> (match o0 with
                       | Some y -> lex_eqb x y
                       | None -> false)
-        | LBool _ -> false)
+        | _ -> false)
      | None ->
        (match b with
         | LVal o0 -> (match o0 with
                       | Some _ -> false
                       | None -> true)
-        | LBool _ -> false))
+        | _ -> false))
   | LBool x -> (match b with
-                | LVal _ -> false
-                | LBool y -> eqb x y)
+                | LBool y -> eqb x y
+                | _ -> false)
+  | LEntry o ->
+    (match o with
+     | Some p ->
+       let (k, v) = p in
+       (match b with
+        | LEntry o0 ->
+          (match o0 with
+           | Some p0 ->
+             let (k', v') = p0 in (&&) (lex_eqb k k') (lex_eqb v v')
+           | None -> false)
+        | _ -> false)
+     | None ->
+       (match b with
+        | LEntry o0 -> (match o0 with
+                        | Some _ -> false
+                        | None -> true)
+        | _ -> false))
 
 (** val seq_legal : smap -> call list -> bool **)
 
